@@ -27,6 +27,7 @@ pub fn dispatch(prop: &str, ctx: &mut RunCtx<'_>) -> Option<Violation> {
         "C04" => crate::c04::run(ctx),
         "C05" => crate::c05::run(ctx),
         "C11" => crate::c11::run(ctx),
+        "C12" => crate::c12::run(ctx),
         "C14" => crate::frontend::run_c14(ctx),
         "C17" => crate::c17::run(ctx),
         "C20" => crate::c20::run(ctx),
